@@ -35,6 +35,12 @@ EMPTY_BODY_DOCS = ["{ }\n", "# keep me\n{ }\n", "{ } # trailing\n", "{ pkgs }: #
                    "{ pkgs }:\n{ }\n", "let\n  v = 1;\nin\n{ } # trailing\n", "# top\nf { }\n"]
 
 
+# documents written on one line, with dotted bindings (the one-line / multi-line decision has to
+# look at what is rendered, not at the merged values)
+ONE_LINE_DOCS = ["{ a.x = 0; }\n", "{ a.x = 0; b = 1; }\n", "{ m = { p.q = 1; }; }\n", "f { a.x = 0; a.y = 1; }\n",
+                 "{ a = 1; }\n", "let v = 1; in { a.x = 0; }\n"]
+
+
 def make_document(rng: random.Random, *, canonical_only: bool = False, **kw):
     kw.setdefault("hyphen", False)
     kw.setdefault("comment_rate", rng.choice([1.0, 1.0, 1.0, 3.0, 5.0]))
@@ -43,6 +49,9 @@ def make_document(rng: random.Random, *, canonical_only: bool = False, **kw):
     if rng.random() < 0.03:
         # boundary: a body set without bindings, with and without comments around it
         text = rng.choice(EMPTY_BODY_DOCS)
+    elif rng.random() < 0.03 and not canonical_only:
+        text = rng.choice(ONE_LINE_DOCS)
+        canonical = False
     if not canonical_only and rng.random() < 0.3:
         text2 = E.noncanonical_variant(rng, text)
         if not cst.has_error(text2):
